@@ -81,8 +81,8 @@ theorem C17_yearly_is_max {yearOf : Int → Int} {rows : List Row} {σ : List Na
         ∀ d ∈ c.days, yearOf d = y → c.tab.total d ≤ c.tab.total b ∧ (c.tab.total d = c.tab.total b → b ≤ d) := by
   obtain ⟨st, inv, _, rfl⟩ := run_facts hwf hσ hτ h
   intro y ⟨d, hd, hy⟩
-  have yi := yearly_inv yearOf (loop2 st σ τ).tab.total inv.days_nodup hτ
-  cases hm : yearly yearOf (loop2 st σ τ).tab.total st.days τ y with
+  have yi := yearly_inv yearOf (loop2 st (secWalk σ) τ).tab.total inv.days_nodup hτ
+  cases hm : yearly yearOf (loop2 st (secWalk σ) τ).tab.total st.days τ y with
   | none => exact absurd hy (yi.none y hm d hd)
   | some b => exact ⟨b, hm, yi.some y b hm⟩
 
